@@ -23,3 +23,14 @@ package main
 //@   site InitTaskfile#1 requires len(posArgs) == 0 ==> arg0 == initWd                                          [C19]
 //@   site (*Vars).Set#1 requires arg1 == "CLI_ARGS" && dyn(arg2.Value) == type(string)   -- one string, not a list  [C19]
 //@   site (*Vars).Set#1 requires arg2.Live == arg2.Value      -- and marked as a final value: it is data, not a template  [C19]
+
+// ---- C03: the process exit status -----------------------------------------------------------------------------
+// a run that returned an error never exits 0; with --exit-code a failed task run exits with the failing
+// command's own status, otherwise with the error's class code
+//@ ghost var runErr error scratch
+//@ ghost var exitCodeWanted int scratch
+//@ func main
+//@   site run#1 ghost runErr := result
+//@   site (*TaskRunError).TaskExitCode#1 ghost exitCodeWanted := result
+//@   site os.Exit#2 requires arg0 == exitCodeWanted && flags.ExitCode && runErr != nil                          [C03]
+//@   site os.Exit#0 requires (runErr == nil) == (arg0 == 0)                                                     [C03]
